@@ -478,6 +478,10 @@ class BaseParser:
                 # (a str subclass is a key as it is, whatever its own __str__ says)
                 key = str(key)
             field = self.get_field(key)
+            if field and excluded_keys and (field.attname if as_attname else field.name) in excluded_keys:
+                # already given (by position): what comes under its name is an additional item,
+                # as field_first_parse has it (e.g. def f(a, /, **kwargs): f(1, a=2))
+                field = None
             if not field:
                 add_value = self.parse_addition(key, value, context=context)
                 if not unprovided(add_value):
